@@ -320,3 +320,89 @@ def generate_default_config(seed, tier, n=None):
             v = v.replace("do top run", "\n".join(add) + "\ndo top run", 1)
         out.append(v)
     return out
+
+
+def with_resolver_and_kernel(rng, scn, resolver_p=0.8, kernel_p=0.8):
+    """post-processes a generated scenario text (any family): adds a resolver program (dns lines, a
+    tcp/udp resolver, host-name and literal lookups, cancel; issued from top, from the scenario's own timer
+    handlers and from inside lookup handlers) and kernel-level operations (user timers armed for the very
+    instants the sockets' helper timers use, re-armed, cancelled, destroyed while waited on; post / defer /
+    dispatch; now and then stop + restart + run) to a program that already has sockets, so that resolver
+    queue, user timers, socket-internal timers and posted completions share one timer queue and one heap.
+    Uses fresh object names (r7.., t<max+1>.., h<max+1>..) and leaves every existing line as it is."""
+    import re
+    lines = scn.rstrip("\n").split("\n")
+    if not lines or lines[-1].strip() != "end": return scn
+    runs = [i for i, l in enumerate(lines) if l.strip() == "do top run"]
+    if not runs: return scn
+    run_idx = runs[-1]
+    first_do = next((i for i, l in enumerate(lines) if l.startswith("do ")), run_idx)
+    nodes = [l.split()[1] for l in lines if l.startswith("node ")]
+    if not nodes: return scn
+    hmax = [max([int(x) for x in re.findall(r"\bh(\d+)\b", scn)] + [0])]
+    tmax = [max([int(x) for x in re.findall(r"\bt(\d+)\.", scn)] + [0])]
+    def nh():
+        hmax[0] += 1; return "h%d" % hmax[0]
+    def ntm():
+        tmax[0] += 1; return "t%d" % tmax[0]
+    # the scenario's own timer handlers: (context, instant)
+    exp = {}; at = []
+    for l in lines:
+        m = re.match(r"do top (t\d+)\.expires_at (\d+)$", l)
+        if m: exp[m.group(1)] = int(m.group(2))
+        m = re.match(r"do top (t\d+)\.wait (h\d+)$", l)
+        if m and m.group(1) in exp: at.append((m.group(2), exp[m.group(1)]))
+    INST = [0, 1000, 1000000, 5000000, 20000000, 50000000, 100000000, 300000000, 1000000000]
+    new = []; decl = []; tail = []
+    def ctx_at():
+        """one of the scenario's timer handlers, or a new one"""
+        if at and rng.random() < 0.7: return rng.choice(at)[0]
+        t = ntm(); h = nh(); T = rng.choice(INST)
+        new.append("do top %s.expires_at %d" % (t, T)); new.append("do top %s.wait %s" % (t, h))
+        at.append((h, T)); return h
+    if rng.random() < resolver_p:
+        ips = [ip for l in lines if l.startswith("node ") for ip in l.split()[2].split(",")]
+        table = [("a.test", "ok", rng.choice([0, 500, 1000, 1000000, 20000000]), rng.sample(ips, min(len(ips), rng.choice([1, 2])))),
+                 ("b.test", rng.choice(["host_not_found", "other"]), rng.choice([1000000, 50000000]), []),
+                 ("c.test", "ok", rng.choice([1000, 5000000, 100000000]), ["9.9.9.9", "2001:db8::1", "9.9.9.9"][:rng.choice([1, 2, 3])])]
+        for n, e, lat, a in table:
+            if rng.random() < 0.85: decl.append("dns %s err=%s lat=%d ips=%s" % (n, e, lat, ",".join(a)))
+        names = ["a.test", "a.test", "b.test", "c.test", "nosuch.test", "10.9.8.7", "::1", rng.choice(ips)]
+        rs = ["r7"] + (["r8"] if rng.random() < 0.3 else [])
+        for r in rs: new.append("do top %s.new %s %s" % (r, rng.choice(nodes), rng.choice(["tcp", "udp"])))
+        lookups = []
+        def call(ctx):
+            r = rng.choice(rs)
+            if rng.random() < 0.15: new.append("do %s %s.cancel" % (ctx, r)); return
+            h = nh(); lookups.append(h)
+            new.append("do %s %s.resolve %s %s %s" % (ctx, r, rng.choice(names), rng.choice(["0", "80", "8080", "65535"]), h))
+        for _ in range(rng.choice([1, 2, 3])): call("top")
+        c = ctx_at()
+        for _ in range(rng.choice([1, 2, 3])): call(c)
+        for _ in range(rng.choice([0, 1, 2])):
+            if lookups: call(rng.choice(lookups))          # from inside a lookup handler
+    if rng.random() < kernel_p:
+        timers = [ntm() for _ in range(rng.choice([1, 2, 3]))]
+        stopped = [False]
+        def kop(ctx, depth):
+            t = rng.choice(timers); x = rng.random()
+            if x < 0.25: new.append("do %s %s.expires_at %d" % (ctx, t, rng.choice(INST)))
+            elif x < 0.35: new.append("do %s %s.expires_after %d" % (ctx, t, rng.choice([0, 1000, 1000000, 20000000])))
+            elif x < 0.65:
+                h = nh(); new.append("do %s %s.wait %s" % (ctx, t, h))
+                if depth < 2 and rng.random() < 0.5: kop(h, depth + 1)
+            elif x < 0.77: new.append("do %s %s.cancel" % (ctx, t))
+            elif x < 0.80: new.append("do %s %s.destroy" % (ctx, t))
+            elif x < 0.85: new.append("do %s now" % ctx)
+            elif x < 0.97 or ctx == "top" or stopped[0]:
+                h = nh(); new.append("do %s %s %s" % (ctx, rng.choice(["post", "post", "defer", "dispatch"]), h))
+                if depth < 2 and rng.random() < 0.3: kop(h, depth + 1)
+            else:
+                new.append("do %s stop" % ctx); stopped[0] = True
+                tail.extend(["do top restart", "do top run"])
+        for _ in range(rng.choice([1, 2, 4])): kop("top", 0)
+        for _ in range(rng.choice([1, 2])):
+            c = ctx_at()
+            for _ in range(rng.choice([1, 2, 3])): kop(c, 1)
+    out = lines[:first_do] + decl + lines[first_do:run_idx] + new + [lines[run_idx]] + tail + lines[run_idx + 1:]
+    return "\n".join(out) + "\n"
